@@ -160,6 +160,15 @@ func main() {
 		if err != nil {
 			inconc = append(inconc, fmt.Sprintf("unit %s: %v", u.Name, err))
 		}
+		if n, ok := info["race_reports"].(int); ok && n > 0 {
+			sample, _ := info["race_sample"].(string)
+			results = append(results, rtResult{Check: p.ID + ".racedetector", Evaluations: 1, DistinctN: 0, Classes: map[string]int{"reports": n}, Extra: withUnit(nil, u.Name),
+				Violations: []rtViolation{{Sig: "data-race:" + raceSig(sample), Count: n, Msg: fmt.Sprintf("the Go race detector reported %d data race(s) in unit %s:\n%.2500s", n, u.Name, sample), Replay: map[string]any{}}}})
+		}
+		if lr := checkHistories(out, p.ID); lr != nil {
+			lr.Extra = withUnit(lr.Extra, u.Name)
+			results = append(results, *lr)
+		}
 		files, _ := filepath.Glob(filepath.Join(out, "*.result.json"))
 		sort.Strings(files)
 		if len(files) == 0 && err == nil {
@@ -460,6 +469,30 @@ func tailStr(s string, n int) string {
 		return s[len(s)-n:]
 	}
 	return s
+}
+
+// raceSig names a race report by the first two telemetry frames in it.
+func raceSig(report string) string {
+	var fs []string
+	for _, l := range strings.Split(report, "\n") {
+		l = strings.TrimSpace(l)
+		if strings.HasPrefix(l, "golang.org/x/telemetry/") && !strings.Contains(l, "verifrt") && !strings.Contains(l, "zz_verif") {
+			if i := strings.LastIndex(l, "("); i > 0 {
+				l = l[:i]
+			}
+			l = strings.TrimPrefix(l, "golang.org/x/telemetry/")
+			if len(fs) == 0 || fs[len(fs)-1] != l {
+				fs = append(fs, l)
+			}
+			if len(fs) == 2 {
+				break
+			}
+		}
+	}
+	if len(fs) == 0 {
+		return "harness-only"
+	}
+	return strings.Join(fs, "|")
 }
 
 func countRaces(out string) (int, string) {
